@@ -118,7 +118,7 @@ def layer_kids(obj):
     out = []
     listed = set()
     for attr, v in vars(obj).items():
-        if attr in ("dataset", "datasets", "_collators"):
+        if attr in ("dataset", "datasets", "_collators", "shared_dict", "logger"):
             continue
         if isinstance(v, (list, tuple)):
             for e in v:
@@ -129,7 +129,7 @@ def layer_kids(obj):
                     out.append((attr, e.transform))
                     listed.add(id(e.transform))
     for attr, v in vars(obj).items():
-        if attr in ("dataset", "datasets", "_collators"):
+        if attr in ("dataset", "datasets", "_collators", "shared_dict", "logger"):
             continue
         if isinstance(v, bases) and id(v) not in listed:
             out.append((attr, v))
@@ -147,7 +147,8 @@ def ds_tree(obj, cellmap, rename=None):
     kids = [[s, to_tree(t, cellmap)] for s, t in layer_kids(obj)]
     if isinstance(obj, ConcatDataset):
         return {"k": "multi", "cls": name, "parts": [ds_tree(d, cellmap) for d in obj.datasets]}
-    if isinstance(obj, (KDWrapper, KDSubset, ModeWrapper)):
+    from kappadata.caching.cached_dataset import CachedDataset
+    if isinstance(obj, (KDWrapper, KDSubset, ModeWrapper, CachedDataset)):
         return {"k": "wrap", "cls": name, "kids": kids, "inner": ds_tree(obj.dataset, cellmap)}
     cols = [["collators", to_tree(c, cellmap)] for c in (vars(obj).get("_collators") or [])]
     return {"k": "root", "cls": name, "kids": kids, "cols": cols}
@@ -434,6 +435,9 @@ def stack_recipes():
     R.append(("semseg", lambda: ModeWrapper(SemsegTransformWrapper(make_ds("tensor"), transforms=[
         T.KDSemsegRandomResize(base_size=(16, 16), ratio=(0.5, 2.0)), T.KDSemsegRandomHorizontalFlip(), T.KDColorJitter(0.4, 0.4, 0.2, 0.1)]), mode="x semseg")))
     R.append(("mugs", lambda: ModeWrapper(MUGSMultiViewWrapper(make_ds("pil"), global_size=16, local_size=8, num_local_crops=2), mode="x")))
+    from kappadata.caching.shared_dict_dataset import SharedDictDataset
+    R.append(("cached", lambda: SharedDictDataset(ModeWrapper(XTransformWrapper(make_ds("tensor", collators=cols()), transform=T.KDRandomCrop(size=12)),
+                                                              mode="x"), transform=nested())))
     R.append(("interleaved-concat", lambda: _InterleavedConcatDataset([
         ModeWrapper(XTransformWrapper(make_ds("tensor", collators=cols()), transform=nested()), mode="x"),
         ModeWrapper(XTransformWrapper(make_ds("tensor"), transform=T.KDRandomCrop(size=8)), mode="x")])))
@@ -506,7 +510,7 @@ class C09(PropertyCheck):
                 "kappadata/samplers/interleaved_sampler.py", "kappadata/utils/random.py"]
     assumptions = ["torch seeds the process-global NumPy RNG differently in every dataloader worker (base_seed + worker_id)",
                    "generators derived from different global NumPy states (get_rng_from_global) have unrelated streams; equal states give equal streams",
-                   "kappadata.caching datasets (plain torch Datasets outside the KD worker-init chain) are outside the claim"]
+                   "kappadata.caching datasets are part of the layer table since their worker_init_fn was repaired"]
     trusted_extra = ["translators harness/kdv/translate_wrappers.py and translate_rngflow.py, cross-checked by the dynamic probe each run",
                      "modelled: worker_init_fn chain of every dataset-layer class, KDTransform.worker_init_fn = set_rng(fresh); not modelled: torch worker seeding"]
     level_text = ("Lean theorem worker_init_reseeds_everything: for every dataset stack built from the tables regenerated from /repo (any depth/branching, any "
